@@ -46,6 +46,7 @@ def run(tier, seed, build):
     from props.bodygen import PREAMBLE
     wit_names = [l.split("(")[0][4:] for l in WITNESSES.splitlines() if l.startswith("def ")]
     cases = vl.run_batch(rng, n_modules, model, extra_sources=[(PREAMBLE + WITNESSES, wit_names)])
+    cases += vl.run_file_batch(rng, n_modules // 3, model)
     for c in cases:
         res.evaluations += 1
         case = {"function": c.fn_src}
@@ -94,11 +95,43 @@ def run(tier, seed, build):
         if judged and any(len(x[0]) for v in records.values() for x in v):
             res.nontrivial.add(common.digest(c.fn_src))
         res.sample({"function": c.fn_src, "calls": c.im["calls"][:4]}, cap=3)
+    imported_class_case(res)
     res.assumptions = [
         "which callee names are classes is decided from the module preamble (class statements, namedtuple declarations) and namedtuple declarations in the function",
         "[interp] call-site spelling = README spelling of each argument expression",
     ]
     return res
+
+
+def imported_class_case(res):
+    """A class reached through an import: Python constructs an instance exactly as for a local class."""
+    import shutil
+    import tempfile
+    from pathlib import Path
+
+    import impl
+
+    tmp = Path(tempfile.mkdtemp(prefix="rattr-c09-"))
+    try:
+        (tmp / "b.py").write_text("class C:\n    def __init__(self, a):\n        self.from_b = a.w\n")
+        src = "from b import C\n\ndef f(p):\n    x = C(p)\n    return C(p.q)\n"
+        (tmp / "target.py").write_text(src)
+        with impl.in_dir(tmp):
+            tree, ctx = vl.prepare(src)
+            fn = next(n for n in tree.body if getattr(n, "name", "") == "f")
+            im, _ = vl.analyse_function(fn, ctx)
+        res.evaluations += 1
+        recs = sorted((r["name"], tuple(r["args"])) for r in im["calls"])
+        want = [("C", ("@ReturnValue", "p.q")), ("C", ("x", "p"))]
+        if recs == want:
+            res.count("imported-class:instance-prepended")
+        else:
+            res.count("verdict:instance-argument-missing:imported-class")
+            res.violations.append({"signature": "instance-argument-missing:imported-class",
+                                   "case": {"files": {"b.py": (tmp / "b.py").read_text(), "target.py": src}},
+                                   "expected": want, "recorded": recs})
+    finally:
+        shutil.rmtree(tmp, ignore_errors=True)
 
 
 def replay(path):
